@@ -8,6 +8,7 @@ implementation states.  `D` is the distance matrix of the instance.
 import JumanjiModel.Env.CVRP.Lemmas
 import JumanjiModel.Env.CVRP.GenLemmas
 import JumanjiModel.Env.CVRP.Bounds
+import JumanjiModel.Env.CVRP.Spec
 open Jm CVRP
 
 /-- a non-trivial feasible state (3 customers, capacity 5): depot → 2 → depot → 1, customer 3 open -/
@@ -39,6 +40,73 @@ theorem cvrp_step_obsInv (c : Cfg) (D : Dist) (n : Nat) (s : State) (a : Nat) (h
 
 example : ObsInv ⟨5, true, 1⟩ 3 CVRP.exampleState := by decide +kernel
 example : validDraw 2 3 [[0, 0], [1, 1/2], [1/3, 1]] [1, 3, 2] := by decide +kernel
+
+/-! #### full spec membership (structure, shapes, dtypes, bounds) — Env/CVRP/Spec.lean
+
+`obsSpec n` / `actionSpec n` are the declared `observation_spec` / `action_spec` of a `num_nodes = n` environment as values
+of the spec algebra (Spec/Spec.lean); `toNValue o` is the model observation as the seven arrays the implementation emits,
+every shape read off the value; `Nested.valid` is the transliteration of `validate`.  (`demands` and `capacity` are the
+exact quotients `x / max_capacity`, as in the interval theorems above.) -/
+
+open Sp PzS in
+/-- the symbolic specs ARE the specs generated from the real spec objects (Gen/Specs.lean) for the catalogue
+configuration `cvrp-6` -/
+theorem cvrp_obsSpec_generated :
+    prefixed "observation_spec." (obsSpec 6) = declared "cvrp-6" "observation_spec." ∧
+    [("action_spec", actionSpec 6)] = declared "cvrp-6" "action_spec" := by
+  refine ⟨by decide, by decide⟩
+
+/-- the `reset` observation — every size, every valid draw of `UniformGenerator`, `max_demand ≤ max_capacity` (checked by
+the constructor) — is accepted by `observation_spec.validate`: coordinates `(n+1, 2)` float32 in [0, 1]; demands `(n+1,)`
+float32 in [0, 1]; unvisited_nodes, action_mask `(n+1,)` bool; position `()` int32 in [0, n]; trajectory `(2n,)` int32
+in [0, n+1]; capacity `()` float32 in [0, 1] -/
+theorem cvrp_reset_obs_valid (c : Cfg) (n : Nat) (maxDemand : Int) (cd : List (List Rat)) (dd : List Int)
+    (hd : validDraw n maxDemand cd dd) (hm : maxDemand ≤ c.maxCap) :
+    (obsSpec n).valid (toNValue (reset c n cd dd).2.obs) = true :=
+  CVRP.reset_obs_valid c n maxDemand cd dd hd hm
+
+/-- the same for the observation of every `step` with an action of the action spec (`a ≤ n`; legal or not, the terminal
+step included; any distance matrix, either reward function) from a state satisfying `SpecInv c n` … -/
+theorem cvrp_step_obs_valid (c : Cfg) (D : Dist) (n : Nat) (s : State) (a : Nat) (ha : a ≤ n) (h : SpecInv c n s) :
+    (obsSpec n).valid (toNValue (step c D s a).2.obs) = true := CVRP.step_obs_valid c D n s a ha h
+
+/-- … an invariant (`ObsInv c n` and the shapes of a `num_nodes = n` instance) that `reset` establishes for every valid
+draw, every in-spec step preserves, and which therefore holds in every state of every in-spec play from `reset` -/
+theorem cvrp_reset_specInv (c : Cfg) (n : Nat) (maxDemand : Int) (cd : List (List Rat)) (dd : List Int)
+    (hd : validDraw n maxDemand cd dd) (hm : maxDemand ≤ c.maxCap) : SpecInv c n (reset c n cd dd).1 :=
+  CVRP.reset_specInv c n maxDemand cd dd hd hm
+theorem cvrp_step_specInv (c : Cfg) (D : Dist) (n : Nat) (s : State) (a : Nat) (ha : a ≤ n) (h : SpecInv c n s) :
+    SpecInv c n (step c D s a).1 := CVRP.step_specInv c D n s a ha h
+theorem cvrp_obs_valid_along (c : Cfg) (D : Dist) (n : Nat) (maxDemand : Int) (cd : List (List Rat)) (dd : List Int)
+    (hd : validDraw n maxDemand cd dd) (hm : maxDemand ≤ c.maxCap) (as : List Nat) (hok : ∀ a ∈ as, a ≤ n)
+    (a : Nat) (ha : a ≤ n) :
+    (obsSpec n).valid (toNValue
+      (step c D ((Ep.ofStep (step c D) (fun s => (s.numVisits : Int))).run (reset c n cd dd).1 as) a).2.obs) = true :=
+  CVRP.step_obs_valid c D n _ a ha
+    (CVRP.specInv_along c D n _ as hok (CVRP.reset_specInv c n maxDemand cd dd hd hm))
+
+/-- what membership means (so the theorems above are not hollow) -/
+theorem cvrp_obs_valid_only (n : Nat) (o : Obs) (h : (obsSpec n).valid (toNValue o) = true) :
+    o.coords.length = n + 1 ∧ (∀ x ∈ o.coords.flatten, 0 ≤ x ∧ x ≤ 1) ∧
+    o.demands.length = n + 1 ∧ (∀ x ∈ o.demands, 0 ≤ x ∧ x ≤ 1) ∧ o.unvisited.length = n + 1 ∧
+    o.position ≤ n ∧ o.trajectory.length = 2 * n ∧ (∀ v ∈ o.trajectory, v ≤ n + 1) ∧
+    (0 ≤ o.capacity ∧ o.capacity ≤ 1) ∧ o.mask.length = n + 1 := CVRP.obs_valid_only n o h
+
+/-- `action_spec.generate_value()` (= the depot) is a member of `action_spec` and is accepted by `step` in every state of
+the invariant: the answer is a MID or LAST timestep whose observation is a member of `observation_spec` (reward and
+discount: `cvrp_step_reward_discount_in_spec`, Props/C01.lean) -/
+theorem cvrp_step_accepts_generate (c : Cfg) (D : Dist) (n : Nat) (s : State) (h : SpecInv c n s) :
+    (actionSpec n).generate = ⟨[], .int32, [0]⟩ ∧ (actionSpec n).valid (actionSpec n).generate = true ∧
+    (obsSpec n).valid (toNValue (step c D s 0).2.obs) = true ∧
+    ((step c D s 0).2.stepType = .mid ∨ (step c D s 0).2.stepType = .last) :=
+  CVRP.step_accepts_generate c D n s h
+
+example : SpecInv ⟨5, true, 1⟩ 3 CVRP.exampleState := by decide +kernel
+example : (obsSpec 3).valid (toNValue (stateToObs ⟨5, true, 1⟩ CVRP.exampleState)) = true ∧
+    (obsSpec 3).valid (toNValue (stateToObs ⟨2, true, 1⟩ CVRP.exampleState)) = false ∧
+    (obsSpec 3).valid (toNValue { stateToObs ⟨5, true, 1⟩ CVRP.exampleState with position := 4 }) = false ∧
+    (obsSpec 3).valid (toNValue { stateToObs ⟨5, true, 1⟩ CVRP.exampleState with mask := [true] }) = false := by
+  decide +kernel
 end Props.C01
 
 namespace Props.C04
@@ -51,6 +119,17 @@ action is never treated as invalid, and every legal action is accepted -/
 theorem cvrp_step_agrees (maxCap : Int) (s : State) (a : Nat) (hf : Feasible maxCap s)
     (ha : a < s.visited.length) : isValid s a = true ↔ legal s a :=
   CVRP.isValid_iff_legal maxCap s a hf ha
+
+/-- the same stated about `step` itself (audit: `cvrp_step_agrees` speaks of the auxiliary `isValid` only): on a feasible
+state and an in-range node, a legal action is carried out (the successor is `visitL2 c s a`: position, capacity, visited
+flags, route, counter), an illegal one changes nothing and ends the episode (with the penalty: `cvrp_illegal_terminates`,
+C05); hence the visit is counted iff the action was legal — a masked-in node (`cvrp_mask_iff_legal`) is never treated as
+invalid and no legal node is refused -/
+theorem cvrp_step_agrees_step (c : Cfg) (D : Dist) (s : State) (a : Nat) (hf : Feasible c.maxCap s)
+    (ha : a < s.visited.length) :
+    (legal s a → (step c D s a).1 = visitL2 c s a) ∧
+    (¬ legal s a → (step c D s a).1 = s ∧ (step c D s a).2.stepType = .last) ∧
+    (legal s a ↔ (step c D s a).1.numVisits = s.numVisits + 1) := CVRP.step_agrees_step c D s a hf ha
 
 example : Feasible 5 CVRP.exampleState := by decide +kernel
 example : legal CVRP.exampleState 0 ∧ ¬ legal CVRP.exampleState 1 ∧ ¬ legal CVRP.exampleState 2 ∧
@@ -94,6 +173,24 @@ theorem cvrp_masked_step_feasible (c : Cfg) (D : Dist) (s : State) (a : Nat) (hm
 trajectory exactly once, every route within capacity, vehicle back at the depot -/
 theorem cvrp_complete_is_solution (maxCap : Int) (s : State) (hf : Feasible maxCap s)
     (h : allVisited s = true) : IsSolution maxCap s := CVRP.complete_is_solution maxCap s hf h
+/-- the same about a state PRODUCED BY `step` (audit: `cvrp_complete_is_solution` has `allVisited s` as hypothesis and no
+`step`): a legal action from a feasible state whose timestep is LAST leaves a complete feasible solution -/
+theorem cvrp_step_complete_is_solution (c : Cfg) (D : Dist) (s : State) (a : Nat) (hm : 0 ≤ c.maxCap)
+    (hf : Feasible c.maxCap s) (hl : legal s a) (hlast : (step c D s a).2.stepType = .last) :
+    IsSolution c.maxCap (step c D s a).1 := CVRP.step_complete_is_solution c D s a hm hf hl hlast
+
+/-- whole episodes: every complete episode of legal actions (`LegalEpisode`: each action legal at its turn, LAST exactly
+at the last one) from ANY generated instance ends in a complete feasible solution: every customer on the route exactly
+once, every route within the capacity, vehicle back at the depot -/
+theorem cvrp_episode_complete_is_solution (c : Cfg) (D : Dist) (n : Nat) (cd : List (List Rat)) (dd : List Int)
+    (hm : 0 ≤ c.maxCap) (hd : dd.length = n + 1) (as : List Nat)
+    (hep : LegalEpisode c D (generate n c.maxCap cd dd) as) :
+    IsSolution c.maxCap (endState c D (generate n c.maxCap cd dd) as) :=
+  CVRP.episode_complete_is_solution c D hm _ as (CVRP.generate_feasible n c.maxCap cd dd hm hd) hep
+
+example : LegalEpisode ⟨1, true, 3/2⟩ [[0, 1, 1], [1, 0, 1], [1, 1, 0]]
+    (generate 2 1 [[0, 0], [1, 0], [0, 1]] [1, 1, 1]) [1, 0, 2, 0] := by decide +kernel
+
 /-- whole episodes: from ANY feasible state along ANY sequence of nodes each legal at its turn, the state after
 every prefix is feasible: load within capacity on every route, no customer served twice -/
 theorem cvrp_feasible_along_from (c : Cfg) (D : Dist) (hm : 0 ≤ c.maxCap) (s : State) (as : List Nat)
@@ -206,6 +303,26 @@ theorem cvrp_update_eq (c : Cfg) (s : State) (a : Nat) (hl : s.demands.length = 
                trajectory := if s.numVisits < s.trajectory.length then s.trajectory.set s.numVisits a
                              else s.trajectory
                numVisits := s.numVisits + 1 } := CVRP.update_eq c s a hl ha
+
+/-- L1 = L2 (audit: `cvrp_step_legal_spec` covers legal actions and some fields only): on EVERY feasible state and EVERY
+in-range action — legal or not — the transliterated `step` (gathers with clamping, scatters with dropping, the stale-state
+reads of the reward functions, `compute_tour_length` over the zero-padded trajectory, `visited_mask.all()`) returns exactly
+what the documented rules `stepL2` (Env/CVRP/Model.lean) prescribe: successor state in ALL fields, reward, step type,
+discount and observation, for both reward functions.  `hD`: the depot is at distance 0 from itself. -/
+theorem cvrp_step_eq_spec (c : Cfg) (D : Dist) (s : State) (a : Nat) (hm : 0 ≤ c.maxCap)
+    (hD : dist D DEPOT DEPOT = 0) (hf : Feasible c.maxCap s) (ha : a < s.visited.length) :
+    step c D s a = stepL2 c D s a := CVRP.step_eq_stepL2 c D s a hm hD hf ha
+
+/-- the termination test of the rules ("all nodes have been visited": every customer on the route, vehicle at the depot,
+read off the route) is the code's `visited_mask.all()` in every feasible state -/
+theorem cvrp_complete_eq_allVisited (m : Int) (s : State) (hf : Feasible m s) : complete s = allVisited s :=
+  CVRP.complete_eq_allVisited m s hf
+
+-- the rules on the example state: node 3 (demand 3, capacity 3) is served, node 2 (visited) ends the episode with the penalty
+example : (stepL2 ⟨5, true, 3/2⟩ [[0, 1, 1, 1], [1, 0, 1, 1], [1, 1, 0, 1], [1, 1, 1, 0]] CVRP.exampleState 3).1.capacity = 0 ∧
+    (stepL2 ⟨5, true, 3/2⟩ [[0, 1, 1, 1], [1, 0, 1, 1], [1, 1, 0, 1], [1, 1, 1, 0]] CVRP.exampleState 3).2.reward = [-1] ∧
+    (stepL2 ⟨5, true, 3/2⟩ [[0, 1, 1, 1], [1, 0, 1, 1], [1, 1, 0, 1], [1, 1, 1, 0]] CVRP.exampleState 2).2.reward = [-9] := by
+  decide +kernel
 end Props.C09
 
 namespace Props.C10
@@ -258,6 +375,20 @@ theorem cvrp_visits_bound (maxCap : Int) (s : State) (hf : Feasible maxCap s) :
 theorem cvrp_step_feasible_any (c : Cfg) (D : Dist) (s : State) (a : Nat) (hm : 0 ≤ c.maxCap)
     (hf : Feasible c.maxCap s) (ha : a < s.visited.length) : Feasible c.maxCap (step c D s a).1 :=
   CVRP.step_feasible_any c D s a hm hf ha
+
+/-- whole episodes (audit: `cvrp_progress` is a single step): from EVERY reset state (any `n ≥ 1`, any draws of the right
+length), EVERY list of at least `2n` actions of the action spec (`a ≤ n`) — legal or not — contains a LAST timestep, and the
+first one has (1-based) index ≤ `2n`: no episode outlasts the structural horizon `2·num_nodes`.  `Ep.rollout` iterates
+the L1 `step`, `Ep.firstLastTS` is what harness/props/c11.py measures (Core/Episode.lean). -/
+theorem cvrp_ends_within_horizon (c : Cfg) (D : Dist) (hm : 0 ≤ c.maxCap) (n : Nat) (hn : 0 < n)
+    (cd : List (List Rat)) (dd : List Int) (hd : dd.length = n + 1) (as : List Nat) (hok : ∀ a ∈ as, a ≤ n)
+    (hlen : 2 * n ≤ as.length) :
+    ∃ k, Ep.firstLastTS ((Ep.rollout (step c D) (reset c n cd dd).1 as).map (·.2)) = some k ∧ 0 < k ∧ k ≤ 2 * n :=
+  CVRP.ends_within_horizon c D hm n hn cd dd hd as hok hlen
+
+/-- the horizon `2n` is attained: two customers that each fill the vehicle need 4 steps -/
+example : Ep.firstLastTS ((Ep.rollout (step ⟨1, true, 3/2⟩ [[0, 1, 1], [1, 0, 1], [1, 1, 0]])
+    (reset ⟨1, true, 3/2⟩ 2 [[0, 0], [1, 0], [0, 1]] [1, 1, 1]).1 [1, 0, 2, 0]).map (·.2)) = some 4 := by decide +kernel
 end Props.C11
 
 namespace Props.C12
